@@ -178,6 +178,9 @@ def run(ctx: Ctx) -> None:
     jobs = base.hierarchy_cases(ctx)
     if ctx.quick:      # C25 quick runs all of them; here every second hierarchy keeps the tier within budget
         jobs = jobs[::2]
+    else:              # all 3-class hierarchies, every second of the sampled / simulated larger ones
+        k = ctx.notes["hierarchies_exhaustive_3_classes"]
+        jobs = jobs[:k] + jobs[k::2]
     traces, behs = base.run_cases(ctx, jobs)
     ctx.exhaustive = True
     for t in traces:
